@@ -591,7 +591,8 @@ class SymArr:
             if value.mask is None:
                 raise Unsupported("masked assignment from an uncompressed array")
             if value.mask[0] != mkey:
-                c.fail("mask.alignment[%s]" % c.fresh_name("mk"), "masked get and set use different masks", kind="domain")
+                # two mask OBJECTS (e.g. `~small` written twice): fine exactly when they select the same elements
+                _same_selection(c, value.mask[1], mfn, self.shape, "masked get and set select the same elements")
             vfn = value.snapshot()
             value_at = lambda vidx: vfn(*vidx)
         else:
@@ -948,6 +949,16 @@ def _power_in_range(base, exp):
         S.prove(nm, S.Forall(chk.shape, lambda *i: snap(*i)), kind="domain")
 
 
+def _same_selection(c, m1, m2, shape, what):
+    """Domain obligation: two boolean masks over one shape select the same elements."""
+    from . import spec as S
+    from .core import iff
+
+    if c.in_spec:
+        return
+    S.prove("mask.alignment[%s]" % c.fresh_name("mk"), S.Forall(tuple(shape), lambda *i: iff(m1(*i), m2(*i)), name=what), kind="domain")
+
+
 def mask_key(mask):
     """Identity of a boolean mask's *contents* (storage id + version)."""
     return (mask.storage.id, mask.storage.nwrites, id(mask._fwd))
@@ -1274,9 +1285,12 @@ def elementwise(op, operands, kind=None):
     masks = [a.mask for a in arrs if a.mask is not None]
     mask = None
     if masks:
-        if any(a.mask is None for a in arrs) or any(m[0] != masks[0][0] for m in masks):
+        if any(a.mask is None for a in arrs):
             c = ctx()
-            c.fail("mask.alignment[%s]" % c.fresh_name("mk"), "operands compressed by different boolean masks", kind="domain")
+            c.fail("mask.alignment[%s]" % c.fresh_name("mk"), "a compressed (boolean-masked) operand combined with an uncompressed one", kind="domain")
+        for a in arrs[1:]:
+            if a.mask is not None and a.mask[0] != masks[0][0]:
+                _same_selection(ctx(), a.mask[1], masks[0][1], arrs[0].shape if arrs[0].mask is not None else a.shape, "operands compressed by masks selecting the same elements")
         mask = masks[0]
     shape = broadcast_shapes([a.shape for a in arrs], "ufunc")
     getters = [broadcast_getter(o, shape, "ufunc") for o in operands]
